@@ -191,11 +191,29 @@ Section Accept.
         else (VAccept, t1)
     | _ => (v, t1)
     end.
+
+  (* A chain of candidate blocks on top of a head block.  The head is (trie committed by the
+     head's ETX-set root, the head's inbound set, which the next block pushes first).  An
+     accepted candidate becomes the head, with the inbound set fixed for it by the dominant
+     chain (4th component); a refused candidate leaves the head as it was (its state is
+     discarded; Process opens the state at the parent's root for every block). *)
+  Definition cand := (list (etx * N) * N * N * list etx)%type.
+  Fixpoint run_chain (t : trie) (inb : list etx) (cs : list cand) : list verdict * trie * list etx :=
+    match cs with
+    | [] => ([], t, inb)
+    | (blk, num, gl, next) :: cs' =>
+        let '(v, t') := accept_block t inb blk num gl in
+        match v with
+        | VAccept => let '(vs, tf, inbf) := run_chain t' next cs' in (v :: vs, tf, inbf)
+        | _ => let '(vs, tf, inbf) := run_chain t inb cs' in (v :: vs, tf, inbf)
+        end
+    end.
 End Accept.
 
 (* instance used by the correspondence check: the harness names every distinct
    transaction hash by a distinct byte string, so the hash is the identity *)
 Definition accept_block_id := accept_block (list N) (fun e => e) keqb.
+Definition run_chain_id := run_chain (list N) (fun e => e) keqb.
 
 (* ------------------------------------------------------------------ (c) routing *)
 
@@ -226,6 +244,26 @@ Definition filter_to_sub (slice : list N) (ctx order : N) (tx : N * N) : bool :=
 
 (* transaction.go:Transactions.FilterToLocation *)
 Definition filter_to_location (l : list N) (tx : N * N) : bool := keqb l (loc_of_prefix (fst tx)).
+
+(* exhaustive enumeration used by the correspondence check: every address byte x ETX type 0..5 *)
+Fixpoint nrange (s : N) (len : nat) : list N :=
+  match len with
+  | O => []
+  | S l => s :: nrange (s + 1) l
+  end.
+Definition all_txs : list (N * N) :=
+  flat_map (fun p => map (fun ty => (p, ty)) (nrange 0 6)) (nrange 0 256).
+Fixpoint selected_from (f : N * N -> bool) (i : N) (l : list (N * N)) : list N :=
+  match l with
+  | [] => []
+  | x :: l' => if f x then i :: selected_from f (i + 1) l' else selected_from f (i + 1) l'
+  end.
+Fixpoint ns_eqb (a b : list N) : bool :=
+  match a, b with
+  | [], [] => true
+  | x :: a', y :: b' => (x =? y) && ns_eqb a' b'
+  | _, _ => false
+  end.
 
 (* ------------------------------------------------------------------ correspondence *)
 
@@ -265,13 +303,28 @@ Inductive case :=
    zone block number, gas limit; observed verdict class and (oldest, newest) afterwards *)
 | CB (id : N) (o0 : N) (pre inbound : list etx) (blk : list (etx * N)) (num gaslimit : N)
      (obs_verdict obs_oldest obs_newest : N)
+(* end-to-end run of the real Process on a block with this ETX section: only the refusal class is
+   observable (0 accept, 1 nil pop, 2 hash mismatch, 3 count rule, 4 gas rule, 9 = refused for a
+   reason outside the ETX discipline, which may pre-empt any ETX verdict: no constraint) *)
+| CV (id : N) (o0 : N) (pre inbound : list etx) (blk : list (etx * N)) (num gaslimit : N) (obs_class : N)
+(* a chain of candidate blocks on a head whose queue is empty at o0 and whose inbound set is inb0:
+   observed verdict classes, and (oldest, newest) of the final head state *)
+| CC (id : N) (o0 : N) (inb0 : list etx) (cs : list (list (etx * N) * N * N * list etx))
+     (obs_verdicts : list N) (obs_oldest obs_newest : N)
 (* FilterToSub on a list of (to-prefix, etx type): observed selection flags *)
 | CR (id : N) (slice : list N) (ctx order : N) (txs : list (N * N)) (sel : list bool)
 (* FilterToLocation *)
-| CL (id : N) (l : list N) (txs : list (N * N)) (sel : list bool).
+| CL (id : N) (l : list N) (txs : list (N * N)) (sel : list bool)
+(* the same two on all_txs: observed = positions of the selected transactions *)
+| CRX (id : N) (slice : list N) (ctx order : N) (sel : list N)
+| CLX (id : N) (l : list N) (sel : list N).
 
 Definition case_id (c : case) : N :=
-  match c with CQ i _ _ => i | CB i _ _ _ _ _ _ _ _ _ => i | CR i _ _ _ _ _ => i | CL i _ _ _ => i end.
+  match c with
+  | CQ i _ _ => i | CB i _ _ _ _ _ _ _ _ _ => i | CR i _ _ _ _ _ => i | CL i _ _ _ => i
+  | CC i _ _ _ _ _ _ => i | CV i _ _ _ _ _ _ _ => i
+  | CRX i _ _ _ _ => i | CLX i _ _ => i
+  end.
 
 Definition case_ok (c : case) : bool :=
   match c with
@@ -280,8 +333,16 @@ Definition case_ok (c : case) : bool :=
       let t := push_etxs (init_at o0) pre in
       let '(v, t') := accept_block_id t inbound blk num gl in
       (verdict_code v =? ov) && (get_oldest t' =? oo) && (get_newest t' =? on)
+  | CV _ o0 pre inbound blk num gl oc =>
+      let v := fst (accept_block_id (push_etxs (init_at o0) pre) inbound blk num gl) in
+      (oc =? 9) || (verdict_code v =? oc)
+  | CC _ o0 inb0 cs ovs oo on =>
+      let '(vs, tf, _) := run_chain_id (init_at o0) inb0 cs in
+      ns_eqb (map verdict_code vs) ovs && (get_oldest tf =? oo) && (get_newest tf =? on)
   | CR _ slice ctx order txs sel => bools_eqb (map (filter_to_sub slice ctx order) txs) sel
   | CL _ l txs sel => bools_eqb (map (filter_to_location l) txs) sel
+  | CRX _ slice ctx order sel => ns_eqb (selected_from (filter_to_sub slice ctx order) 0 all_txs) sel
+  | CLX _ l sel => ns_eqb (selected_from (filter_to_location l) 0 all_txs) sel
   end.
 
 Definition mismatches (cs : list case) : list N :=
